@@ -332,6 +332,8 @@ def bind_params(engine, a, args, kwargs, env, st, frame, fi):
     args = list(args)
     kwargs = dict(kwargs)
     star_extra = kwargs.pop("**", None)
+    if star_extra is not None and star_extra.kind == "dict" and z3.simplify(star_extra.t[0]).eq(S.EMPTY_SET):
+        star_extra = None  # f(**{}) passes nothing
     if any(x.kind == "starargs" for x in args):
         # f(*xs) with xs of unknown length: only supported when the callee takes *args directly
         if a.vararg is not None and len(args) - 1 <= len(params):
